@@ -25,7 +25,7 @@
 use crate::{
     common::{
         constants,
-        error::{Error, KeyErrorType},
+        error::{Error, HyperErrorType, KeyErrorType},
         hyper_client, logger,
         result::Result,
     },
@@ -781,7 +781,19 @@ pub async fn acquire_key(base_url: &Uri) -> Result<Key> {
             response.status(),
         )));
     }
-    hyper_client::read_response_body(response).await
+    // this response body carries the key: a deserialization error must not echo it,
+    // the caller logs the error and publishes it as the key latch status message
+    hyper_client::read_response_body(response)
+        .await
+        .map_err(|e| match e {
+            Error::Hyper(HyperErrorType::Deserialize(_)) => {
+                Error::Hyper(HyperErrorType::Deserialize(format!(
+                    "Failed to deserialize the {} key response body (body withheld)",
+                    KeyAction::Acquire
+                )))
+            }
+            e => e,
+        })
 }
 
 pub async fn attest_key(base_url: &Uri, key: &Key) -> Result<()> {
